@@ -17,6 +17,7 @@ import (
 
 	"github.com/inbucket/inbucket/v3/pkg/extension/event"
 	"github.com/inbucket/inbucket/v3/pkg/policy"
+	"github.com/inbucket/inbucket/v3/pkg/verifhook"
 	"github.com/rs/zerolog"
 )
 
@@ -157,6 +158,7 @@ func (s *Server) startSession(id int, conn net.Conn, logger zerolog.Logger) {
 		Str("remote", conn.RemoteAddr().String()).
 		Int("session", id).Logger()
 	logger.Info().Msg("Starting SMTP session")
+	verifhook.Yield("smtp.session.accepted")
 
 	// Update WaitGroup and counters.
 	s.wg.Add(1)
